@@ -9,8 +9,10 @@ behaviour; it never re-scans a text, it knows the pieces the text was assembled 
            result must equal the reference whatever was adapted before (caches are cleared at the start of a case,
            so a case is the complete history); the thorough tier also recomputes sampled steps in a fresh process.
   live     SQLite (qmark): db.select / get / exists / execute, Entity.select_by_sql / get_by_sql and raw_sql()
-           fragments in declarative queries; the (sql, arguments) seen by the sqlite3 driver and the rows that come
-           back must equal the reference.
+           fragments in declarative queries (generator, lambda, filter, where, expression position, two fragments);
+           the caller scope is given either as explicit globals/locals or implicitly, by calling from inside a
+           generated function frame; the (sql, arguments) seen by the sqlite3 driver and the rows that come back
+           must equal the reference.
 """
 import os, sys, json, subprocess
 
@@ -23,7 +25,7 @@ RULE = ('A text is assembled by construction from literal pieces (SQL words, quo
         'string/bracket/keyword arguments, subscripts, parenthesised expression, builtin call, optional trailing `;`), '
         'each followed by text that must not be consumed; the caller scope (globals/locals with ints, strs, objects, '
         'dicts, lists, callables, shadowing) is generated with it. One case = one (text, paramstyle) adaptation, one '
-        'raw_sql() parse, or one live execution through an entry point. Non-trivial = the text has at least one '
+        'raw_sql() parse, or one live execution through an entry point (scope passed explicitly or taken from the calling frame). Non-trivial = the text has at least one '
         '$-expression AND (a literal %, a `$$`, a trailing `;`, or an expression that is not a bare name); for history '
         'steps additionally: an earlier step of the same case adapted the same text under another style or its '
         '%/%%-variant under the same style. Distinct = hash of (sql text, style or entry point[, preceding steps]).')
@@ -357,7 +359,7 @@ MANIFEST = {
             'sequences of adaptations over %/%% variants and styles check that each result equals the cold-cache reference '
             '(thorough tier: also a fresh interpreter); on live SQLite every public entry point (db.select/get/exists/execute, '
             'select_by_sql/get_by_sql, raw_sql() in generator, lambda, filter, where, expression and two-fragment queries) is '
-            'executed and both the (sql, arguments) seen by the sqlite3 driver and the returned rows are compared with the '
+            'executed, with the caller scope passed explicitly or found through a generated calling frame, and both the (sql, arguments) seen by the sqlite3 driver and the returned rows are compared with the '
             'reference. Sampled, not exhaustive: it cannot establish the claim for all texts, scopes and histories.',
     'note': 'Only SQLite (qmark) is executed; numeric/named/format/pyformat are judged on the adapted text and evaluated '
             'argument code, and raw_sql() fragments under non-qmark providers are not covered. Expressions with white space '
